@@ -6,7 +6,7 @@
    (harness/cmd/c01); the specification (Pbf/Spec.v: elements, encode_block, valid_block) is
    written from osmformat.proto. *)
 From Coq Require Import ZArith List Bool.
-From Verif Require Import Base.Int64 Pbf.Tree Pbf.Model Pbf.Spec Pbf.ProofsArith Pbf.ProofsIndep Pbf.ProofsDecode Pbf.ProofsAll.
+From Verif Require Import Base.Int64 Pbf.Tree Pbf.Model Pbf.Spec Pbf.ProofsArith Pbf.ProofsIndep Pbf.ProofsDecode Pbf.ProofsDense Pbf.ProofsAll.
 Import ListNotations.
 Open Scope Z_scope.
 
@@ -31,23 +31,17 @@ Theorem C01_delta32_lossless : forall prev x, - two31 <= x < two31 ->
 Proof. exact delta32_roundtrip. Qed.
 Print Assumptions C01_delta32_lossless.
 
-(* 3. FULL STATEMENT (not yet proved for dense-node groups):
-        Theorem C01_decode_encode_block : forall b, valid_block b = true ->
-          forall st, scan_result cfg_all st (encode_block b) = Ok (elements b).
-      Proved below for every valid block whose groups hold ways, relations and changesets (all
-      combinations of Info presence, each Info field, tags present/absent/forced-empty, refs,
-      node locations, members, block granularity / offsets / date granularity, string table),
-      from EVERY incoming decoder state.  Missing: the DenseNodes item lemma
-      [item_decodes b (IDense d)] (column loop of extractDenseNodes against encode's delta
-      columns and keys_vals runs); the block-level composition [decode_encode_from_items] is
-      already proved for arbitrary items, so only that lemma is missing.  Dense groups are
-      covered by theorem 1 (no inheritance, all trees), C08's filter theorem (all trees) and by the
-      correspondence run (model = implementation = elements on every generated file). *)
-Theorem C01_decode_encode_block_partial : forall b,
-  valid_block b = true -> no_dense b = true ->
+(* 3. decode_encode_block: decoding the reference encoding of ANY valid block description (dense
+      groups with every subset of the six DenseInfo columns and with or without keys_vals, ways with
+      or without Info / each Info field / tags / refs / node locations, relations with members,
+      changesets, any granularity / offsets / date granularity / string table, mixed groups) yields
+      exactly the elements the description means, in order, field for field, from EVERY incoming
+      decoder state. *)
+Theorem C01_decode_encode_block : forall b,
+  valid_block b = true ->
   forall st, scan_result cfg_all st (encode_block b) = Ok (elements b).
-Proof. exact decode_encode_block_nodense. Qed.
-Print Assumptions C01_decode_encode_block_partial.
+Proof. exact decode_encode_block. Qed.
+Print Assumptions C01_decode_encode_block.
 
 (* the block-level composition for arbitrary items (dense included): if every item decodes to its
    meaning from any state with the block's parameters, the block does *)
@@ -57,18 +51,22 @@ Theorem C01_decode_encode_from_items : forall b,
 Proof. exact decode_encode_from_items. Qed.
 Print Assumptions C01_decode_encode_from_items.
 
-(* non-vacuity: a valid block with a way (Info, tags, located refs) and a relation *)
+(* non-vacuity: a valid block with a dense group (3 of 6 info columns, keys_vals, an empty key), a way
+   (Info, tags, located refs) and a relation *)
 Example C01_witness_block : block_d :=
-  mkBlockD [[]; [107]; [118]; [117]] false (Some 1000) None (Some 5) None
-    [[IWay (mkWayD 7 true (mkFl true true false false true false) (mkInfoD 3 1400000000 0 0 3 true)
+  mkBlockD [[]; [107]; [118]; [117]; []] false (Some 1000) None (Some 5) None
+    [[IDense (mkDense [mkDN 10 100 (-200) (mkInfoD 3 1400000000 0 7 3 false) [(1, 2); (4, 2)];
+                       mkDN 12 101 (-199) (mkInfoD 4 1400000060 0 8 0 true) []]
+                      true (mkFl true true false false true false) true)];
+     [IWay (mkWayD 7 true (mkFl true true false false true false) (mkInfoD 3 1400000000 0 0 3 true)
                    [(1, 2)] false [10; 8] false true [1; 2] [-1; -2]);
       IRel (mkRelD 9 false (mkFl false false false false false false) (mkInfoD 0 0 0 0 0 true)
                    [] true [mkMemD 1 5 1; mkMemD 0 (-3) 0] false)]].
-Example C01_witness_valid : valid_block C01_witness_block = true /\ no_dense C01_witness_block = true.
-Proof. vm_compute. split; reflexivity. Qed.
+Example C01_witness_valid : valid_block C01_witness_block = true.
+Proof. vm_compute. reflexivity. Qed.
 Example C01_witness_run :
   scan_result cfg_all dstate0 (encode_block C01_witness_block) = Ok (elements C01_witness_block)
-  /\ length (elements C01_witness_block) = 2%nat.
+  /\ length (elements C01_witness_block) = 4%nat.
 Proof. vm_compute. split; reflexivity. Qed.
 
 (* header_faithful (decode_header (encode_header h) = Ok (header_of h)) and field_order_irrelevant
